@@ -165,7 +165,7 @@ import corr_play, real_play
 seed, n, n_ops = int(sys.argv[3]), int(sys.argv[4]), int(sys.argv[5])
 h = hashlib.sha256()
 for i in range(n):
-    c = corr_play.make_case(seed, f"xproc:{i}", dict(hooks=0.5, join=0.4, params=0.4, one_time=0.6), n_ops, "main",
+    c = corr_play.make_case(seed, f"xproc:{i}", dict(hooks=0.5, join=0.4, params=0.4, one_time=0.6, jump_mode_cycles=0.4, block_jumps=0.6), n_ops, "main",
                             dict(choose=75, undo=6, redo=4, goto=4, save=8, load=0, fresh=0, read=2, bad=1, loadbad=0))
     h.update(json.dumps(c.get("story"), sort_keys=False, default=str).encode())
     h.update(json.dumps(c.get("real"), sort_keys=False, default=str).encode())
@@ -208,3 +208,40 @@ def share_family(rep, n_cases, n_ops, nproc=16):
     cov["distinct_nontrivial"] = cov.get("distinct_nontrivial", 0) + len(hashes)
     cov.setdefault("families", {})["c16-share"] = tot
     return tot
+
+
+def compile_determinism(rep, seed, n):
+    """compiling is a function of the source: the result does not depend on what was compiled before, an earlier result is
+    not changed by a later compilation, and two results share no container.  B is A with every tag removed, so that the
+    same lines (inline conditionals included) are tokenised once with and once without tags."""
+    import re
+    import gen_story
+    done = 0
+    for i in range(n):
+        r = rng_for(seed, "compdet", i)
+        a_src = gen_story.print_story(gen_story.generate(r.randrange(1 << 30), dict(tags=0.9, inline_cond=0.9, glue=0.1, comments=0)))
+        # lines that END in an inline conditional and carry a tag are what a shared cache would trip over
+        a_src += "\n:: Tail_%d\nStatus: {a > 0 ? alive | dead} ^status\nAgain: {a > 0 ? alive | dead}\n" % i
+        b_src = re.sub(r" \^[\w:]+", "", a_src)
+        try:
+            with quiet():
+                b1 = corr_play.compile_source(b_src)
+                a1 = corr_play.compile_source(a_src)
+                a1_frozen = copy.deepcopy(a1)
+                b2 = corr_play.compile_source(b_src)
+                a2 = corr_play.compile_source(a_src)
+        except Exception:  # noqa
+            continue
+        done += 1
+        def fail(what):
+            rep.violations.append({"cls": None, "family": "c16-compile", "what": what, "source": a_src, "other_source": b_src})
+        if b1 != b2:
+            fail("the same source compiled to different stories before and after another source was compiled")
+        if a1 != a2:
+            fail("compiling the same source twice gave different stories")
+        if a1 != a1_frozen:
+            fail("a compiled story was changed by a later compilation")
+        if container_ids(a1) & container_ids(b2) or container_ids(a1) & container_ids(a2):
+            fail("two compiled stories share mutable containers")
+    rep.coverage.setdefault("families", {})["c16-compile"] = {"cases": done}
+    rep.coverage["evaluations"] = rep.coverage.get("evaluations", 0) + done
